@@ -7,4 +7,16 @@ CLAIMED = {
    text="Exploration: the real AurelCore is run on seeded spacetime families (3+1 trig spacetimes with shift/lapse/shear switches, gauge-transformed Minkowski and Kasner), orders 2-8, open and periodic grids; every 4D key is compared per component class with exact values. Held = observed to converge (or be exact to round-off) on every sampled case; not a proof over all spacetimes.",
    note="Trusted base: lib/jets.py oracle (closed-form sinusoid derivatives, 2nd-order AD, numpy.linalg), self-checked on flat and Kasner space each run; convergence rule needs ratio >= 2^(p-2) so a loss of more than one order or any O(1) formula error is detected, errors below 1e-9*scale are not.",
    ref="2 C04, 1.1, 1.2"),
+ "C05": dict(engine="jets", technique="runtime oracle monitoring: helper calls and spatial-curvature keys vs textbook formulas on exact Christoffels and exact derivatives of random test fields; two-grid convergence verdict",
+   text="Exploration: every supported index pattern of s_covd/st_covd/s_div/s_curl/Lie_beta (5 density weights), both arms of s_Ricci_down3 and the BSSNOK split are observed on seeded curved metrics with shift, orders 2-8, open and periodic grids, and judged per component class; invalid-argument calls must raise. Held = converged on everything sampled.",
+   note="Trusted base as C04 plus closed-form derivatives of sinusoid test fields; 'u'/'d' semantics taken from the docstrings.",
+   ref="2 C05"),
+ "C06": dict(engine="jets", technique="runtime oracle monitoring: constraints vs 0 and dt-quantities vs exact t-derivatives of the exact fields; two-grid convergence verdict",
+   text="Exploration: every smooth metric is an exact solution for T=(G+Lambda g)/kappa, so Hamiltonian/momentum constraints and the six dt-quantities are observed on general-gauge members (shift, time-dependent lapse, sheared metrics, Lambda of both signs) and on gauge-transformed Minkowski/Kasner with vacuum=True, and must converge to 0 / to the true coordinate-time derivative.",
+   note="Trusted base as C04; exact t-derivatives by 8th-order differences in t of exact fields (truncation < 1e-13).",
+   ref="2 C06"),
+ "C19": dict(engine="jets", technique="runtime oracle monitoring: kinematic keys of the default Eulerian fluid vs the 3+1 identities; two-grid convergence verdict",
+   text="Exploration: with the fluid left at its defaults, uup4, theta, theta/shear tensors (all 16 components), shear2, vorticity and the acceleration (incl. its normal component) are observed on members with time-dependent lapse, shift and sheared metrics and compared with n^mu, -K, -A_ij, A^2, 0 and D_i ln(alpha).",
+   note="Trusted base as C04.",
+   ref="2 C19"),
 }
